@@ -110,11 +110,14 @@ class Segment(GeoBody):
     def __setitem__(self, idx, value):
         """set the i point of the segment"""
         if idx == 0:
-            self.start_point = value
+            start_point, end_point = value, self.end_point
         elif idx == 1:
-            self.end_point = value
+            start_point, end_point = self.start_point, value
         else:
             raise IndexError("Index out of range")
+        # the cached line has to follow the new end point
+        self.line = Line(start_point, end_point)
+        self.start_point, self.end_point = start_point, end_point
 
     def move(self, v):
         """Return the Segment that you get when you move self by vector v, self is also moved"""
